@@ -400,9 +400,10 @@ package core
 //@ ghost var reqCount int
 //@ func (b *BaseProxyComponents) IncrementRequests
 //@   property C19
-//@   trusted
-//@   modifies gvar reqCount
+//@   requires b != nil
+//@   modifies b.totalRequests, b.Stats, ProxyStats.TotalRequests
 //@   records reqCount = old(reqCount) + 1
+//@   ensures b.Stats.TotalRequests == old(b.Stats.TotalRequests) + 1 && b.Stats.SuccessfulRequests == old(b.Stats.SuccessfulRequests) && b.Stats.FailedRequests == old(b.Stats.FailedRequests)
 
 //@ extern time.NewTimer(d)
 //@   trusted
